@@ -323,7 +323,10 @@ def active_regionprops(tracks):
     from funtracks.annotators import RegionpropsAnnotator
     for a in tracks.annotators:
         if isinstance(a, RegionpropsAnnotator):
-            return a, [k for k in a.features]
+            keys = [k for k in a.features]
+            # a key of this annotator that the registry lists counts as enabled too
+            keys += [k for k in a.all_features if k in tracks.features and k not in keys]
+            return a, keys
     return None, []
 
 
@@ -426,7 +429,10 @@ def true_iou(tracks, u, v):
 
 
 def iou_active(tracks):
-    return "iou" in tracks.annotators.features
+    # enabled = active in the annotator, or registered in the feature registry as the managed
+    # edge feature (a loaded IoU that the annotator was never told to maintain goes stale)
+    return "iou" in tracks.annotators.features or (
+        "iou" in tracks.features and "iou" in tracks.annotators.all_features)
 
 
 def inv_c09(tracks, bulk=True):
